@@ -129,3 +129,15 @@ macro_rules! fu { ($($t:ty),*) => {$( impl FromU128 for $t { #[inline] fn fu(v: 
 fu!(u8, u16, u32, u64, u128, usize);
 macro_rules! fi { ($($t:ty),*) => {$( impl FromI128 for $t { #[inline] fn fi(v: i128) -> Self { v as $t } } )*}; }
 fi!(i8, i16, i32, i64, i128, isize);
+
+/// Iterator adaptor that hides the length of the wrapped iterator: `size_hint` answers `(0, None)`.
+pub struct NoHint<I>(pub I);
+impl<I: Iterator> Iterator for NoHint<I> {
+    type Item = I::Item;
+    fn next(&mut self) -> Option<I::Item> {
+        self.0.next()
+    }
+    fn size_hint(&self) -> (usize, Option<usize>) {
+        (0, None)
+    }
+}
